@@ -8,10 +8,13 @@ use std::panic::{catch_unwind, AssertUnwindSafe};
 
 mod util;
 mod toa;
+mod mock;
+mod ldro;
 
 fn dispatch(op: &str, a: &[&str]) -> String {
     match op {
         "toa" | "toa_sweep" | "ldro_toa" | "delay_in_symbols" | "symbols_to_ms" => toa::run(op, a),
+        "ldro" => ldro::run_op(a),
         _ => format!("UNKNOWN-OP {op}"),
     }
 }
